@@ -48,7 +48,8 @@ def _read_exact(ex, st, args, dest_ty, func, where):
         raise Unsupported("read_exact on %r into %r" % (cur, buf))
     data, pos = cur.f[0], cur.f[1].t
     n = buf.len
-    ok = simp(z3.And(pos <= data.len, n <= data.len - pos))
+    # std: the remaining slice is data[min(pos, len)..]; an EMPTY buffer is filled trivially even past the end
+    ok = simp(n <= z3.If(pos <= data.len, data.len - pos, 0))
     cap = ex.byte_cap
     arr = buf.arr
     for j in range(cap):
@@ -72,6 +73,38 @@ def _write_all(ex, st, args, dest_ty, func, where):
 def _take(ex, st, args, dest_ty, func, where):
     inner = args[0]
     return VStruct("Take", [inner, VInt(args[1].t, "u64")])
+
+
+def _by_ref(ex, st, args, dest_ty, func, where):
+    return args[0]
+
+
+def _read_to_end_cursor(ex, st, args, dest_ty, func, where):
+    """Read::read_to_end from a Cursor or Take<(&mut) Cursor> into a Vec<u8>: appends everything that is left (up to
+    the Take limit), advances the cursor, returns the count; an in-memory reader never fails"""
+    rref, rd = _find_place(ex, st, args[0])
+    limit, cur, cref = None, rd, rref
+    if isinstance(rd, VStruct) and rd.name == "Take":
+        limit = rd.f[1].t
+        cur = rd.f[0]
+        if isinstance(cur, VRef):
+            cref, cur = _find_place(ex, st, cur)
+        else:
+            cref = None
+    if not (isinstance(cur, VStruct) and cur.name == "Cursor"):
+        from .deltamodels import _read_to_end
+        return _read_to_end(ex, st, args, dest_ty, func, where)
+    data, pos = cur.f[0], cur.f[1].t
+    left = z3.If(pos <= data.len, data.len - pos, 0)
+    n = simp(left if limit is None else z3.If(limit < left, limit, left))
+    vref, v = _find_place(ex, st, args[1])
+    ex.store_ref(st, vref, seq_append(ex, v, VSeq(data.arr, simp(data.off + pos), n, "u8")))
+    newcur = VStruct("Cursor", [data, VInt(simp(pos + n), "u64")])
+    if cref is not None:
+        ex.store_ref(st, cref, newcur)
+    if limit is not None:
+        ex.store_ref(st, rref, VStruct("Take", [rd.f[0] if cref is not None else newcur, VInt(simp(limit - n), "u64")]))
+    return VEnum("Result", I(0), {0: [VInt(n, "usize")]})
 
 
 def _io_copy(ex, st, args, dest_ty, func, where):
@@ -329,6 +362,9 @@ def install(ex):
     A(r"^<R as (std::io::)?Read>::read_exact$", _read_exact, "Cursor::read_exact (all or UnexpectedEof)")
     A(r"^<W as (std::io::)?Write>::write_all$", _write_all, "Vec<u8>::write_all (never fails)")
     A(r"^<(&mut )?R as (std::io::)?Read>::take$", _take, "Read::take")
+    A(r"^<(&mut )?R as (std::io::)?Read>::by_ref$", _by_ref, "Read::by_ref")
+    A(r"^<(std::io::)?Take<.*> as (std::io::)?Read>::read_to_end$|^<R as (std::io::)?Read>::read_to_end$", _read_to_end_cursor,
+      "Read::read_to_end from a Cursor / Take<Cursor> (in-memory: never fails)")
     A(r"^std::io::copy::<", _io_copy, "std::io::copy between in-memory reader and writer")
     A(r"^<std::io::Error as From<.*>>::from$|^<std::io::Error as Into<.*>>::into$|^std::io::Error::new::<", _opaque_err, "io::Error constructors (opaque)")
     A(r"^Vec::<\w+>::as_slice$", _as_slice, "Vec::as_slice")
